@@ -502,7 +502,10 @@ class FunctionAnalysis:
         elif isinstance(t, ast.Subscript):
             base = self.eval(t.value, env)
             self.eval(t.slice, env)
-            if isinstance(t.value, ast.Attribute) and t.value.attr in DICT_ATTRS:
+            if isinstance(t.value, ast.Attribute) and t.value.attr in DICT_ATTRS and isinstance(t.value.value, ast.Attribute) and t.value.value.attr == 'bins':
+                # x.bins.coords[k] = v writes the event buffer, which a shallow copy of x shares with x
+                self.mutate(base, t, 'item store into the event coordinates', stmt_node=st)
+            elif isinstance(t.value, ast.Attribute) and t.value.attr in DICT_ATTRS:
                 # x.coords[k] = v inserts into the metadata dict of the object x itself.  A view, a shallow copy or a new
                 # DataArray around the same buffers has its own dict: the insertion does not reach the object it was made from.
                 owner = self.eval(t.value.value, env)
